@@ -50,6 +50,9 @@ def configs(tier, seed):
         _cfg((130, 2, 2), "uint8", ["--downscaling-method", "average", "--outside-value", "5"]),
         _cfg((129, 3, 1), "uint8", ["--outside-value", "0", "--no-gzip"]),       # falsy option values (0) must survive the plumbing
         _cfg((66, 2, 1), "uint8", ["--encoding", "compressed_segmentation", "--type", "segmentation"], two_labels=True, cost=8),
+        # documented re-encoding workflow: raw pyramid, then generate-scales-info --encoding ... on its (multi-scale) info
+        # and convert-chunks, against the all-in-one command with that encoding
+        _cfg((130, 1, 1), "uint8", ["--encoding", "compressed_segmentation", "--type", "segmentation"], two_labels=True, reencode=True, cost=12),
         _cfg((64, 3, 2), "uint16", []),                                                # single scale
         _cfg((130, 2, 3), "uint8", ["--downscaling-method", "stride"], vs=[1.0, 1.0, 4.0]),   # anisotropic: chunk sizes change between scales
         _cfg((70, 131, 2), "uint16", ["--downscaling-method", "average"], vs=[2.0, 1.0, 1.0]),
@@ -189,6 +192,26 @@ def H_pipeline(ctx, cfg):
         ctx.prove(ok, f"scale-{li}-same-shape")
         if ok:
             ctx.prove(z3.And([V.eq_elems(x, y) for x, y in zip(a.ravel(), b.ravel())]), f"scale-{li}-decodes-to-the-same-voxels")
+    if cfg.get("reencode"):
+        # ---- raw pyramid first (same options without --encoding), then re-encoded through generate-scales-info + convert-chunks
+        p6, p7 = "/mfs/p6", "/mfs/p7"
+        cc_ = W.script("convert_chunks")
+        raw_gen = [o for i_, o in enumerate(gen_o) if o != "--encoding" and (i_ == 0 or gen_o[i_ - 1] != "--encoding")]
+        W.images["/in/vol.nii"] = fresh_image()
+        _run(ctx, W, v2p, ["prog", "/in/vol.nii", p6, "--generate-info"] + acc_o + conv_o, "raw-generate-info")
+        _run(ctx, W, gsi, ["prog", p6 + "/info_fullres.json", p6] + raw_gen, "raw-generate-scales-info")
+        W.images["/in/vol.nii"] = fresh_image()
+        _run(ctx, W, v2p, ["prog", "/in/vol.nii", p6] + acc_o + conv_o, "raw-convert-volume")
+        _run(ctx, W, cs_, ["prog", p6] + acc_o + comp_o, "raw-compute-scales")
+        _run(ctx, W, gsi, ["prog", p6 + "/info", p7] + gen_o, "re-encode-generate-scales-info")
+        _run(ctx, W, cc_, ["prog", p6, p7] + acc_o, "re-encode-convert-chunks")
+        i7, l7 = _decode_all(ctx, W, p7, "re-encoded", ropts)
+        ctx.prove(i7 == i1, "re-encoded-info-equals-all-in-one-info", detail=f"{json.dumps(i7)[:300]} vs {json.dumps(i1)[:300]}")
+        if l7 is not None and l1 is not None and len(l7) == len(l1):
+            for li, (a, b) in enumerate(zip(l1, l7)):
+                ctx.prove(a.shape == b.shape and z3.And([V.eq_elems(x, y) for x, y in zip(a.ravel(), b.ravel())]),
+                          f"scale-{li}-re-encoded-decodes-to-the-same-voxels")
+        return      # the repeat / read-only sections are decided by the other configurations
     # ---- repeatability: run the data-writing steps again on their own output
     W.images["/in/vol.nii"] = fresh_image()
     _run(ctx, W, v2p, ["prog", "/in/vol.nii", p2] + acc_o + conv_o, "convert-volume-again")
@@ -284,12 +307,23 @@ def replay(cfg, cex):
                 continue         # float values: float32 chosen, reported with exit status 4
             if rc != 0:
                 return True, f"{mod.__name__.rsplit('.', 1)[1]} {argv[2:]} exited with {rc}"
+        extra_dirs = []
+        if cfg.get("reencode"):
+            p6, p7 = os.path.join(td, "p6"), os.path.join(td, "p7")
+            raw_gen = [o for i_, o in enumerate(gen_o) if o != "--encoding" and (i_ == 0 or gen_o[i_ - 1] != "--encoding")]
+            for mod, argv in ((v2p, ["prog", fn, p6, "--generate-info"] + acc_o + conv_o), (gsi, ["prog", os.path.join(p6, "info_fullres.json"), p6] + raw_gen),
+                              (v2p, ["prog", fn, p6] + acc_o + conv_o), (cs_, ["prog", p6] + acc_o + comp_o),
+                              (gsi, ["prog", os.path.join(p6, "info"), p7] + gen_o), (cc_, ["prog", p6, p7] + acc_o)):
+                rc = run(mod, argv)
+                if rc != 0:
+                    return True, f"{mod.__name__.rsplit('.', 1)[1]} {argv[2:]} exited with {rc}"
+            extra_dirs = [p7]
         rc = run(gsi, ["prog", os.path.join(p2, "info_fullres.json"), p2] + gen_o)
         if rc == 0:
             return True, "a second generate-scales-info on the same directory exits with status 0 (the existing info must not be replaced silently)"
         ropts = dict(flat="--flat" in opts, gzip="--no-gzip" not in opts)
         infos, data = [], []
-        for p in (p1, p2, p3):
+        for p in [p1, p2, p3] + extra_dirs:
             r = pio.get_IO_for_existing_dataset(acc_mod.get_accessor_for_url(p, ropts))
             infos.append(r.info)
             lv = []
@@ -317,4 +351,10 @@ def replay(cfg, cex):
         for li, (a, b) in enumerate(zip(data[1], data[2])):
             if a.shape != b.shape or not real_np.array_equal(a, b):
                 return True, f"scale {infos[1]['scales'][li]['key']}: voxels differ after convert-chunks (run twice)"
+        if extra_dirs:
+            if infos[3] != infos[0]:
+                return True, f"re-encoding workflow (generate-scales-info on the raw pyramid's info + convert-chunks): info differs from the all-in-one info: {json.dumps(infos[3])[:400]}"
+            for li, (a, b) in enumerate(zip(data[0], data[3])):
+                if a.shape != b.shape or not real_np.array_equal(a, b):
+                    return True, f"scale {infos[0]['scales'][li]['key']}: voxels differ after the re-encoding workflow"
     return False, "both pipelines agree on the real code"
